@@ -4,7 +4,7 @@ import tempfile
 from .. import pure, common as C
 
 KINDS = {0: "healthy", 1: "close-in-handshake", 2: "abrupt-loss", 3: "orderly-close", 4: "http-404", 5: "stall",
-         6: "bad-frame", 7: "no-answer-to-connect"}
+         6: "bad-frame", 7: "no-answer-to-connect", 8: "refused"}
 
 
 def _split(res):
@@ -33,13 +33,13 @@ class C19(pure.Spec):
             "tuple x three advance/reset patterns exhaustively, plus random tuples up to Duration::MAX and u32::MAX "
             "(overflow panics included), results compared exactly with Client/Backoff.v. (2) the real client_main_inner "
             "against a scripted fake server on loopback (kinds: close during handshake, abrupt loss, orderly close, 404, "
-            "stalled handshake, undecodable frame, never-answered Connect, healthy), local connections opened while the "
+            "stalled handshake, undecodable frame, never-answered Connect, refused connection = listener closed, healthy), local connections opened while the "
             "tunnel is down: the delays between the server failing attempt k and accepting attempt k+1 (real time, "
             "tolerance -25/+150 ms +10 %, a late sample is re-run up to twice before it counts), the final result, the "
             "number of attempts and which local connections got their bytes echoed are compared with the retry-loop "
             "model. Cells = (part, script shape, outcome).")
     assumptions = ["end-to-end part runs in real time on loopback: sampled scripts, timing compared with a tolerance",
-                   "ConnectionRefused (no listener) is not scripted: the fake server always accepts"]
+                   "a refused connection (listener closed while the client makes the attempt) cannot be observed by the fake server: the measured gap spans it and the closed window is placed by the generator"]
 
     def build(self, tier):
         C.cargo_build(os.path.join(C.VERIF, "harness", "app"), "release")
